@@ -359,7 +359,12 @@ func (k *ExtendedKey) Neuter() (*ExtendedKey, error) {
 	// key will simply be the pubkey of the current extended private key.
 	//
 	// This is the function N((k,c)) -> (K, c) from [BIP32].
-	return NewExtendedKey(version, k.pubKeyBytes(), k.chainCode, k.parentFP,
+	// Copy the byte slices so the neutered key does not share memory with
+	// the private key: Zero on either one must not corrupt the other.
+	pubKey := append([]byte(nil), k.pubKeyBytes()...)
+	chainCode := append([]byte(nil), k.chainCode...)
+	parentFP := append([]byte(nil), k.parentFP...)
+	return NewExtendedKey(version, pubKey, chainCode, parentFP,
 		k.depth, k.childNum, false), nil
 }
 
